@@ -3,6 +3,7 @@ package main
 // C05 — the cache hierarchy is transparent and leaves nothing behind.
 
 import (
+	"os"
 	"fmt"
 	"go/ast"
 	"go/token"
@@ -92,6 +93,47 @@ func cachesOf(v *variant) []*cacheInfo {
 	return out
 }
 
+// resolvedCaches: the caches of a variant with fields that are initialised from the same
+// NewLRUCache call merged into one cache (MVP-8 shares its L3 between the CPU and the
+// controllers) and line sizes taken from the constructor call.
+func resolvedCaches(w *World, v *variant) ([]*cacheInfo, map[*types.Var]*cacheInfo) {
+	caches := cachesOf(v)
+	byVar := map[*types.Var]*cacheInfo{}
+	peo := newProvEngine(w, v.pkg)
+	origin := map[string]*cacheInfo{}
+	for _, c := range caches {
+		o := peo.fieldProv(c.field, 0).String()
+		if prev, ok := origin[o]; ok && strings.Contains(o, "NewLRUCache") {
+			prev.dirty = prev.dirty || c.dirty
+			if prev.lineSize == 0 {
+				prev.lineSize = c.lineSize
+			}
+			byVar[c.field] = prev
+			continue
+		}
+		origin[o] = c
+		byVar[c.field] = c
+	}
+	for _, c := range caches {
+		if byVar[c.field] == c && c.lineSize == 0 {
+			// line size from the constructor call the field's value comes from
+			for _, f := range v.pkg.Syntax {
+				ast.Inspect(f, func(n ast.Node) bool {
+					if call, ok := n.(*ast.CallExpr); ok && len(call.Args) == 2 {
+						if fn, ok := typeutil.Callee(v.info, call).(*types.Func); ok && fn.Name() == "NewLRUCache" && strings.Contains(peo.fieldProv(c.field, 0).String(), fmt.Sprintf("NewLRUCache@%d", call.Pos())) {
+							if k, ok := constInt64(v.info.Types[call.Args[0]]); ok {
+								c.lineSize = k
+							}
+						}
+					}
+					return true
+				})
+			}
+		}
+	}
+	return caches, byVar
+}
+
 func asVar(o types.Object) *types.Var {
 	v, _ := o.(*types.Var)
 	return v
@@ -130,42 +172,8 @@ func runC05(r *Run) {
 		if v.pkg == nil {
 			continue
 		}
-		caches := cachesOf(v)
-		byVar := map[*types.Var]*cacheInfo{}
+		caches, byVar := resolvedCaches(w, v)
 		var dirty []*cacheInfo
-		// fields initialised from the same NewLRUCache call denote one cache (MVP-8 shares its L3 between the CPU and the controllers)
-		peo := newProvEngine(w, v.pkg)
-		origin := map[string]*cacheInfo{}
-		for _, c := range caches {
-			o := peo.fieldProv(c.field, 0).String()
-			if prev, ok := origin[o]; ok && strings.Contains(o, "NewLRUCache") {
-				prev.dirty = prev.dirty || c.dirty
-				if prev.lineSize == 0 {
-					prev.lineSize = c.lineSize
-				}
-				byVar[c.field] = prev
-				continue
-			}
-			origin[o] = c
-			byVar[c.field] = c
-		}
-		for _, c := range caches {
-			if byVar[c.field] == c && c.lineSize == 0 {
-				// line size from the constructor call the field's value comes from
-				for _, f := range v.pkg.Syntax {
-					ast.Inspect(f, func(n ast.Node) bool {
-						if call, ok := n.(*ast.CallExpr); ok && len(call.Args) == 2 {
-							if fn, ok := typeutil.Callee(v.info, call).(*types.Func); ok && fn.Name() == "NewLRUCache" && strings.Contains(peo.fieldProv(c.field, 0).String(), fmt.Sprintf("NewLRUCache@%d", call.Pos())) {
-								if k, ok := constInt64(v.info.Types[call.Args[0]]); ok {
-									c.lineSize = k
-								}
-							}
-						}
-						return true
-					})
-				}
-			}
-		}
 		for _, c := range caches {
 			if byVar[c.field] == c && c.dirty {
 				dirty = append(dirty, c)
@@ -711,6 +719,9 @@ func ruleTableKeys(r *Run, rule string, v *variant, pe *provEngine) {
 				keyPos[fv] = ix.Pos()
 			}
 			keyTags[fv].add(p)
+			if os.Getenv("MAJ_DEBUG_TABLE") != "" {
+				fmt.Fprintf(os.Stderr, "table %s at %s: %s\n", fv.Name(), r.W.Fset.Position(ix.Pos()), p)
+			}
 			return true
 		})
 	}
